@@ -260,6 +260,7 @@ _C03_STAGES = [
     {"variant": "asan", "workload": "C03-sessions", "args_quick": ["--scale", "0.25"], "args_thorough": ["--scale", "0.25"], "canary": ["heap-write-past-end", "AddressSanitizer"]},
     {"variant": "asan", "workload": "C03-components"},
     {"variant": "miri", "workload": "C03-lean", "canary": ["unchecked-index", "Undefined Behavior"], "timeout_quick": 1500, "timeout_thorough": 7200},
+    {"variant": "miri", "workload": "C03-sclosure", "shards": 16, "args_thorough": ["--scale", "0.0001"], "timeout_thorough": 7200, "tiers": ["thorough"]},
     {"variant": "vg", "workload": "C03-sessions", "args_quick": ["--scale", "0.05"], "args_thorough": ["--scale", "0.05"], "canary": ["heap-write-past-end", "Invalid write"], "canary_may_survive": True, "tiers": ["thorough"]},
     {"variant": "vg", "workload": "C03-components", "args_quick": ["--scale", "0.1"], "args_thorough": ["--scale", "0.1"], "tiers": ["thorough"]},
     {"custom": "fuzz_c03", "seconds": 150, "tiers": ["thorough"]},
